@@ -9,14 +9,10 @@ import (
 	"path/filepath"
 	"sort"
 	"strings"
-	"sync"
 	"sync/atomic"
 	"time"
 
 	"github.com/bitcoin-sv/block-headers-service/config"
-	"github.com/bitcoin-sv/block-headers-service/domains"
-	"github.com/bitcoin-sv/block-headers-service/repository"
-	"github.com/bitcoin-sv/block-headers-service/service"
 )
 
 func init() { register("C10", runC10) }
@@ -31,6 +27,11 @@ func init() { register("C10", runC10) }
 //	W:<name>          authenticate on the websocket connect handshake (real centrifuge-go client in the
 //	                  thorough tier and for a share of quick cases - prefix "Wr" forces the real client -
 //	                  otherwise the token check the connect handler performs, Services.Tokens.GetToken)
+//	OVL:<held>:<probe> while an authenticate (GET /api/v1/access) of <held> is held inside the token repository (its lookup
+//	                  has returned), <probe> is authenticated on GET /api/v1/access, on an admin route (DELETE
+//	                  /api/v1/access/<never issued value>) and on the websocket connect check; then <held> is released.
+//	                  result "ovl:<role of held>:<role of probe>,<ok|401>,<ok|no>": every answer depends on its own token only.
+//	A=<value>         (only as the first element) the admin token the case is configured with
 //	X                 restart: close the database, reopen the same SQLite file, rebuild services + engine
 //	Cf:<cred>:<name>  like C, but the COMMIT of the INSERT fails (SQLite commit hook turns it into a ROLLBACK)
 //	Rf:<cred>:<name>  like R, but the COMMIT of the DELETE fails
@@ -63,37 +64,8 @@ type c10State struct {
 	real  bool
 
 	failCommit int32 // != 0: every COMMIT on the hooked connections is refused
-	mu         sync.Mutex
-	pauseTok   string        // armed: the next lookup of this value is held after it returned
-	reached    chan struct{} // signalled by the held lookup
-	release    chan struct{} // closed to let it go on
-}
-
-// c10TokRepo decorates repository.Tokens: a scheduling point right after the lookup returned.
-type c10TokRepo struct {
-	inner repository.Tokens
-	st    *c10State
-}
-
-func (r *c10TokRepo) AddTokenToDatabase(t *domains.Token) error { return r.inner.AddTokenToDatabase(t) }
-func (r *c10TokRepo) DeleteToken(t string) error                { return r.inner.DeleteToken(t) }
-func (r *c10TokRepo) GetTokenByValue(tok string) (*domains.Token, error) {
-	t, err := r.inner.GetTokenByValue(tok)
-	r.st.mu.Lock()
-	var rel chan struct{}
-	if r.st.pauseTok != "" && r.st.pauseTok == tok {
-		r.st.pauseTok = ""
-		rel = r.st.release
-		close(r.st.reached)
-	}
-	r.st.mu.Unlock()
-	if rel != nil {
-		select {
-		case <-rel:
-		case <-time.After(10 * time.Second):
-		}
-	}
-	return t, err
+	pause      *tokPauser // scheduling point in the decorated token repository (c10_engine.go)
+	adminCfg   string     // configured admin token of this case ("" = the default of the configuration)
 }
 
 func c10Unknown(name string) string {
@@ -120,6 +92,9 @@ func (st *c10State) resolve(name string) string {
 	}
 	if len(name) > 1 && strings.HasSuffix(name, "-") {
 		v := st.resolve(name[:len(name)-1])
+		if len(v) <= 1 {
+			return v + "x"
+		}
 		return v[:len(v)-1]
 	}
 	if name == "adm" {
@@ -186,14 +161,16 @@ func isAlnum32(s string) bool {
 }
 
 func (st *c10State) open(dir string) error {
-	s, err := NewStack(StackOpts{Dir: dir, UseAuth: true})
+	s, err := NewStack(StackOpts{Dir: dir, UseAuth: true, AdminToken: st.adminCfg})
 	if err != nil {
 		return err
 	}
+	if st.pause == nil {
+		st.pause = &tokPauser{}
+	}
 	// scheduling point in the token repository; the token service (and below, the engine and the websocket
 	// server that hold it) is rebuilt around the decorated repository exactly as service.NewServices builds it
-	s.Repo.Tokens = &c10TokRepo{inner: s.Repo.Tokens, st: st}
-	s.Services.Tokens = service.NewTokenService(s.Repo, s.Cfg.HTTP.AuthToken)
+	st.pause.install(s)
 	if err := s.HookCommits(2, func() int { return int(atomic.LoadInt32(&st.failCommit)) }); err != nil {
 		s.Close()
 		return err
@@ -266,10 +243,7 @@ func (st *c10State) op(o string, dir string) string {
 		if err := st.open(dir); err != nil {
 			return "x:ERR " + strings.ReplaceAll(err.Error(), "\t", " ")
 		}
-		st.mu.Lock()
-		st.pauseTok, st.reached, st.release = tok, make(chan struct{}), make(chan struct{})
-		reached, release := st.reached, st.release
-		st.mu.Unlock()
+		reached, release := st.pause.arm(tok)
 		done := make(chan string, 1)
 		go func() { done <- st.role(tok) }()
 		inflight := ""
@@ -280,9 +254,7 @@ func (st *c10State) op(o string, dir string) string {
 			inflight = "TIMEOUT"
 		}
 		code, _ := st.do("DELETE", "/api/v1/access/"+tok, st.admin)
-		st.mu.Lock()
-		st.pauseTok = ""
-		st.mu.Unlock()
+		st.pause.disarm()
 		close(release)
 		if inflight == "" {
 			select {
@@ -332,6 +304,74 @@ func (st *c10State) op(o string, dir string) string {
 			return fmt.Sprintf("w:INCONSISTENT(client=%s,check=%s)", r, direct)
 		}
 		return "w:" + r
+	case p[0] == "OVL" && len(p) == 3:
+		held, probe := st.resolve(p[1]), st.resolve(p[2])
+		reached, release := st.pause.arm(held)
+		hdone := make(chan string, 1)
+		go func() { hdone <- st.role(held) }()
+		heldRes := ""
+		select {
+		case <-reached: // the authenticate of <held> is now inside the repository, its lookup has returned
+		case heldRes = <-hdone: // answered without a lookup (admin token)
+		case <-time.After(5 * time.Second):
+			heldRes = "TIMEOUT"
+		}
+		// meanwhile authenticate <probe>: ordinary route, an admin route (DELETE of a never issued value: no
+		// effect on the table even when admitted), the websocket connect check
+		pdone := make(chan string, 1)
+		go func() {
+			r1 := st.role(probe)
+			code, _ := st.do("DELETE", "/api/v1/access/"+c10Unknown("ovl"), probe)
+			r2 := fmt.Sprintf("E%d", code)
+			if code == 200 {
+				r2 = "ok"
+			} else if code == 401 {
+				r2 = "401"
+			}
+			r3 := "ok"
+			func() {
+				defer func() {
+					if r := recover(); r != nil {
+						r3 = "PANIC"
+					}
+				}()
+				if _, err := st.fs.Services.Tokens.GetToken(probe); err != nil {
+					r3 = "no"
+				}
+			}()
+			if st.real {
+				if rc := st.fs.WsConnect(probe); rc == "no:3500" {
+					if r3 != "no" {
+						r3 = "INCONSISTENT(client=no,check=" + r3 + ")"
+					}
+				} else if rc != r3 {
+					r3 = "INCONSISTENT(client=" + rc + ",check=" + r3 + ")"
+				}
+			}
+			pdone <- r1 + "," + r2 + "," + r3
+		}()
+		probeRes := ""
+		select {
+		case probeRes = <-pdone:
+		case <-time.After(300 * time.Millisecond): // the probe waits for the held lookup: let that one finish
+		}
+		st.pause.disarm()
+		close(release)
+		if probeRes == "" {
+			select {
+			case probeRes = <-pdone:
+			case <-time.After(10 * time.Second):
+				probeRes = "TIMEOUT"
+			}
+		}
+		if heldRes == "" {
+			select {
+			case heldRes = <-hdone:
+			case <-time.After(5 * time.Second):
+				heldRes = "TIMEOUT"
+			}
+		}
+		return "ovl:" + heldRes + ":" + probeRes
 	case o == "X":
 		st.fs.Shutdown()
 		if err := st.open(dir); err != nil {
@@ -362,6 +402,12 @@ func c10Names(ops []string) []string {
 
 func (st *c10State) runCase(input string, idx int) (string, error) {
 	ops := strings.Split(input, ";")
+	// optional head "A=<value>": the admin token this case is configured with (no space, ';' or ':')
+	st.adminCfg = ""
+	if len(ops) > 0 && strings.HasPrefix(ops[0], "A=") {
+		st.adminCfg = ops[0][2:]
+		ops = ops[1:]
+	}
 	st.bind = map[string]string{}
 	st.names = c10Names(ops)
 	st.real = st.c.Thorough() || st.c.Only != "" || idx%8 == 0 || strings.Contains(input, "Wr:")
@@ -440,6 +486,8 @@ func c10Gen(c *Ctx, maxLen int) string {
 				unbound = append(unbound[:k], unbound[k+1:]...)
 				created = append(created, nm)
 			}
+		case r < 22 && c.Rng.Intn(2) == 0:
+			ops = append(ops, "OVL:"+anyName()+":"+anyName())
 		case r < 22:
 			nm := "g"
 			if len(unbound) > 0 {
